@@ -23,7 +23,7 @@ ASSUMPTIONS = [
     'bool is not used as an Integer/Number value or List item; Selector/ListSelector objects are int/float/str literals',
     'ClassSelector class_ and List item_type are drawn from the literal types (int, float, str) and tuples of them',
 ]
-REQUIRED = {'bare_selector_states': 10, 'class_level_edits_after_first_schema': 30, 'states_validated': 1500, 'oob_probes': 500, 'schemas_checked': 300, 'customised_instances': 50, 'deep_hierarchy_cases': 40, 'list_item_type_edits': 20}
+REQUIRED = {'bare_selector_states': 10, 'class_level_edits_after_first_schema': 30, 'states_validated': 1300, 'oob_probes': 400, 'schemas_checked': 300, 'customised_instances': 50, 'deep_hierarchy_cases': 40, 'list_item_type_edits': 20}
 
 KEYWORDS = {'type', 'anyOf', 'enum', 'minimum', 'maximum', 'exclusiveMinimum', 'exclusiveMaximum', 'minItems', 'maxItems',
             'items', 'additionalItems', 'format', 'properties', 'description', 'title', 'allOf', 'oneOf', 'const',
